@@ -31,7 +31,7 @@ macro_rules! layout_harness {
             $checks
             vcover!("layout reached end");
         }
-        harness!(reg, $k, $h, unwind = 20);
+        harness!(reg, $k, $h, unwind = 34);
     };
 }
 
@@ -127,6 +127,61 @@ layout_harness!(k_layout_exception_stream, h_layout_exception_stream, md::MINIDU
     vassert!(v.thread_context.rva == rd32(&b, 164, le), "MINIDUMP_EXCEPTION_STREAM.ThreadContext.Rva at 164");
 });
 
+layout_harness!(k_layout_handle_desc, h_layout_handle_desc, md::MINIDUMP_HANDLE_DESCRIPTOR, 32, |v, b, le| {
+    vassert!(v.handle == rd64(&b, 0, le), "MINIDUMP_HANDLE_DESCRIPTOR.Handle at 0");
+    vassert!(v.type_name_rva == rd32(&b, 8, le), "MINIDUMP_HANDLE_DESCRIPTOR.TypeNameRva at 8");
+    vassert!(v.object_name_rva == rd32(&b, 12, le), "MINIDUMP_HANDLE_DESCRIPTOR.ObjectNameRva at 12");
+    vassert!(v.attributes == rd32(&b, 16, le), "MINIDUMP_HANDLE_DESCRIPTOR.Attributes at 16");
+    vassert!(v.granted_access == rd32(&b, 20, le), "MINIDUMP_HANDLE_DESCRIPTOR.GrantedAccess at 20");
+    vassert!(v.handle_count == rd32(&b, 24, le), "MINIDUMP_HANDLE_DESCRIPTOR.HandleCount at 24");
+    vassert!(v.pointer_count == rd32(&b, 28, le), "MINIDUMP_HANDLE_DESCRIPTOR.PointerCount at 28");
+});
+
+layout_harness!(k_layout_handle_desc2, h_layout_handle_desc2, md::MINIDUMP_HANDLE_DESCRIPTOR_2, 40, |v, b, le| {
+    vassert!(v.handle == rd64(&b, 0, le), "MINIDUMP_HANDLE_DESCRIPTOR_2.Handle at 0");
+    vassert!(v.type_name_rva == rd32(&b, 8, le), "MINIDUMP_HANDLE_DESCRIPTOR_2.TypeNameRva at 8");
+    vassert!(v.object_name_rva == rd32(&b, 12, le), "MINIDUMP_HANDLE_DESCRIPTOR_2.ObjectNameRva at 12");
+    vassert!(v.attributes == rd32(&b, 16, le), "MINIDUMP_HANDLE_DESCRIPTOR_2.Attributes at 16");
+    vassert!(v.granted_access == rd32(&b, 20, le), "MINIDUMP_HANDLE_DESCRIPTOR_2.GrantedAccess at 20");
+    vassert!(v.handle_count == rd32(&b, 24, le), "MINIDUMP_HANDLE_DESCRIPTOR_2.HandleCount at 24");
+    vassert!(v.pointer_count == rd32(&b, 28, le), "MINIDUMP_HANDLE_DESCRIPTOR_2.PointerCount at 28");
+    vassert!(v.object_info_rva == rd32(&b, 32, le), "MINIDUMP_HANDLE_DESCRIPTOR_2.ObjectInfoRva at 32");
+});
+
+layout_harness!(k_layout_system_info, h_layout_system_info, md::MINIDUMP_SYSTEM_INFO, 56, |v, b, le| {
+    vassert!(v.processor_architecture == rd16(&b, 0, le), "MINIDUMP_SYSTEM_INFO.ProcessorArchitecture at 0");
+    vassert!(v.processor_level == rd16(&b, 2, le), "MINIDUMP_SYSTEM_INFO.ProcessorLevel at 2");
+    vassert!(v.processor_revision == rd16(&b, 4, le), "MINIDUMP_SYSTEM_INFO.ProcessorRevision at 4");
+    vassert!(v.number_of_processors == b[6], "MINIDUMP_SYSTEM_INFO.NumberOfProcessors at 6");
+    vassert!(v.product_type == b[7], "MINIDUMP_SYSTEM_INFO.ProductType at 7");
+    vassert!(v.major_version == rd32(&b, 8, le), "MINIDUMP_SYSTEM_INFO.MajorVersion at 8");
+    vassert!(v.minor_version == rd32(&b, 12, le), "MINIDUMP_SYSTEM_INFO.MinorVersion at 12");
+    vassert!(v.build_number == rd32(&b, 16, le), "MINIDUMP_SYSTEM_INFO.BuildNumber at 16");
+    vassert!(v.platform_id == rd32(&b, 20, le), "MINIDUMP_SYSTEM_INFO.PlatformId at 20");
+    vassert!(v.csd_version_rva == rd32(&b, 24, le), "MINIDUMP_SYSTEM_INFO.CSDVersionRva at 24");
+    vassert!(v.suite_mask == rd16(&b, 28, le), "MINIDUMP_SYSTEM_INFO.SuiteMask at 28");
+});
+
+layout_harness!(k_layout_breakpad_info, h_layout_breakpad_info, md::MINIDUMP_BREAKPAD_INFO, 12, |v, b, le| {
+    vassert!(v.validity == rd32(&b, 0, le), "MINIDUMP_BREAKPAD_INFO.validity at 0");
+    vassert!(v.dump_thread_id == rd32(&b, 4, le), "MINIDUMP_BREAKPAD_INFO.dump_thread_id at 4");
+    vassert!(v.requesting_thread_id == rd32(&b, 8, le), "MINIDUMP_BREAKPAD_INFO.requesting_thread_id at 8");
+});
+
+layout_harness!(k_layout_misc_info, h_layout_misc_info, md::MINIDUMP_MISC_INFO, 24, |v, b, le| {
+    vassert!(v.size_of_info == rd32(&b, 0, le), "MINIDUMP_MISC_INFO.SizeOfInfo at 0");
+    vassert!(v.flags1 == rd32(&b, 4, le), "MINIDUMP_MISC_INFO.Flags1 at 4");
+    vassert!(v.process_id == rd32(&b, 8, le), "MINIDUMP_MISC_INFO.ProcessId at 8");
+    vassert!(v.process_create_time == rd32(&b, 12, le), "MINIDUMP_MISC_INFO.ProcessCreateTime at 12");
+    vassert!(v.process_user_time == rd32(&b, 16, le), "MINIDUMP_MISC_INFO.ProcessUserTime at 16");
+    vassert!(v.process_kernel_time == rd32(&b, 20, le), "MINIDUMP_MISC_INFO.ProcessKernelTime at 20");
+});
+
+layout_harness!(k_layout_location, h_layout_location, md::MINIDUMP_LOCATION_DESCRIPTOR, 8, |v, b, le| {
+    vassert!(v.data_size == rd32(&b, 0, le), "MINIDUMP_LOCATION_DESCRIPTOR.DataSize at 0");
+    vassert!(v.rva == rd32(&b, 4, le), "MINIDUMP_LOCATION_DESCRIPTOR.Rva at 4");
+});
+
 pub fn register(v: &mut Vec<(&'static str, fn(&mut TapeSrc))>) {
     v.push(("k_layout_header", h_layout_header::<TapeSrc>));
     v.push(("k_layout_directory", h_layout_directory::<TapeSrc>));
@@ -138,4 +193,10 @@ pub fn register(v: &mut Vec<(&'static str, fn(&mut TapeSrc))>) {
     v.push(("k_layout_unloaded_module", h_layout_unloaded_module::<TapeSrc>));
     v.push(("k_layout_module", h_layout_module::<TapeSrc>));
     v.push(("k_layout_exception_stream", h_layout_exception_stream::<TapeSrc>));
+    v.push(("k_layout_handle_desc", h_layout_handle_desc::<TapeSrc>));
+    v.push(("k_layout_handle_desc2", h_layout_handle_desc2::<TapeSrc>));
+    v.push(("k_layout_system_info", h_layout_system_info::<TapeSrc>));
+    v.push(("k_layout_breakpad_info", h_layout_breakpad_info::<TapeSrc>));
+    v.push(("k_layout_misc_info", h_layout_misc_info::<TapeSrc>));
+    v.push(("k_layout_location", h_layout_location::<TapeSrc>));
 }
